@@ -6,6 +6,8 @@
 -/
 import GocoinV.Proofs.C01Decode
 import GocoinV.Proofs.C01Num
+import GocoinV.Proofs.C01Ops
+import GocoinV.Proofs.C01NoPanic
 namespace GocoinV.Props.C01
 open GocoinV GocoinV.Script GocoinV.Proofs.C01
 
@@ -98,6 +100,30 @@ theorem no_panic_escapes_eval (O : Oracles) (tx : TxCtx) (flags : Nat) (p : Byte
       if st.exe.length > 0 then Res.fail else pure st.stack : Res Stack) = r
     cases r <;> simp [recoverPanic]
 
+/-- The only unprotected `stack.pop()` of `VerifyTxScript` (P2SH branch) cannot hit an empty stack: a P2SH
+    scriptPubKey evaluated on the empty stack returns false, so verification has already returned. -/
+theorem p2sh_pop_never_reached_empty (O : Oracles) (tx : TxCtx) (flags : Nat) (pk : Bytes) (ed : ExecData)
+    (h : isPayToScript pk = true) : evalScript O tx flags pk [] .base ed = .fail :=
+  p2sh_on_empty_stack_fails O tx flags pk ed h
+
+/-- "Evaluation always terminates with a verdict instead of crashing": for every flag set that satisfies Core's
+    flag dependencies, every scriptSig / scriptPubKey / witness / transaction context and EVERY instance of the
+    cryptography (even a partial one), `VerifyTxScript` does not panic. (Termination is by construction: every
+    loop of the model is structurally recursive on fuel = script length.) -/
+theorem verifyTxScript_never_panics (O : Oracles) (tx : TxCtx) (pk : Bytes) (flags : Nat)
+    (hf : ScriptSpec.FlagsOk (ScriptSpec.Flags.ofMask flags)) : verifyTxScript O tx pk flags ≠ .panic :=
+  NP_verifyTxScript O tx pk flags hf
+
+/-- non-vacuity: the consensus flag set P2SH|DERSIG|NULLDUMMY|CLTV|CSV|WITNESS|TAPROOT is FlagsOk -/
+example : ScriptSpec.FlagsOk (ScriptSpec.Flags.ofMask (VER_P2SH ||| VER_DERSIG ||| VER_NULLDUMMY ||| VER_CLTV ||| VER_CSV ||| VER_WITNESS ||| VER_TAPROOT)) := by
+  decide
+
+/-- `VerifyWitnessProgram` (and with it ExecuteWitnessScript, CheckSchnorrSignature, VerifyTaprootCommitment)
+    never panics, for any witness stack, version, program and flags. -/
+theorem verifyWitnessProgram_never_panics (O : Oracles) (tx : TxCtx) (witness : List Bytes) (ver : Nat) (prog : Bytes)
+    (flags : Nat) (isP2sh : Bool) : verifyWitnessProgram O tx witness ver prog flags isP2sh ≠ .panic :=
+  NP_verifyWitnessProgram O tx witness ver prog flags isP2sh
+
 /-! ## (iv) limits -/
 
 /-- 10000-byte limit: a longer script fails at once under base and witness-v0 rules (not under tapscript). -/
@@ -146,5 +172,68 @@ theorem limit_stack_size (c : Ctx) (st st' : St) (op : Op) (idx pos : Nat)
   dsimp only at h
   repeat' (split at h)
   all_goals first | (simp at h; done) | exact key _ h
+
+/-! ## (v) step / script equivalence between model and reference semantics
+
+`provedOp`: every push opcode 0x00–0x4e (all four push forms, with the MINIMALDATA rule), OP_1NEGATE, OP_1…OP_16,
+OP_NOP, OP_VERIFY, OP_RETURN, OP_TOALTSTACK, OP_FROMALTSTACK, OP_2DROP, OP_2DUP, OP_3DUP, OP_2OVER, OP_2ROT, OP_2SWAP,
+OP_IFDUP, OP_DROP, OP_DUP, OP_NIP, OP_OVER, OP_ROT, OP_SWAP, OP_TUCK, OP_EQUAL, OP_EQUALVERIFY, OP_RIPEMD160, OP_SHA1,
+OP_SHA256, OP_HASH160, OP_HASH256, OP_NOP1, OP_NOP4…OP_NOP10 — plus, inside the frame lemma, the checks that apply
+to EVERY opcode (520-byte push size, 201-op count, disabled opcodes, CONST_SCRIPTCODE's OP_CODESEPARATOR rule,
+1000-element stack limit). -/
+
+/-- One interpreter iteration: for a proved opcode, the model's loop body (after `GetOpcode`) and the spec's
+    `execInstr` on the corresponding parsed instruction either both fail, or both succeed in related states
+    (same stack, altstack, op count, script code, codeseparator position, sigop budget). All flag sets, all
+    signature versions, every total instance of the cryptography. -/
+theorem step_equiv_partial (T : TotalOracles) (c : Ctx) (hO : c.O = T.toOracles) (leaf : Bytes) (annex : Option Bytes)
+    (st : St) (s : ScriptSpec.State) (op : Op) (i : ScriptSpec.Instr) (idx pos : Nat)
+    (hop : i.op = op.opcode) (hdata : i.data = op.push.getD []) (hR : Rel c st s) (hp : provedOp i.op = true) :
+    Agree c (stepAt c st op idx pos) (ScriptSpec.execInstr (envOf T c leaf annex) s i pos) :=
+  stepAt_agree T c hO leaf annex st s op i idx pos hop hdata hR hp
+
+/-- The checks made for EVERY opcode (push size, op count, disabled opcodes, CONST_SCRIPTCODE, pushes incl.
+    MINIMALDATA, final stack-size check) agree between model and spec, whatever the opcode-specific parts do —
+    so each remaining opcode only needs its `execOp`/`execOpcode` case. -/
+theorem step_frame_equiv (T : TotalOracles) (c : Ctx) (hO : c.O = T.toOracles) (leaf : Bytes) (annex : Option Bytes)
+    (st : St) (s : ScriptSpec.State) (op : Op) (i : ScriptSpec.Instr) (idx pos : Nat)
+    (hop : i.op = op.opcode) (hdata : i.data = op.push.getD []) (hR : Rel c st s)
+    (H : op.opcode > 0x4e → ∀ st1 s1, Rel c st1 s1 →
+        Agree c (execOp c st1 op.opcode idx pos true) (ScriptSpec.execOpcode (envOf T c leaf annex) s1 i true pos)) :
+    Agree c (stepAt c st op idx pos) (ScriptSpec.execInstr (envOf T c leaf annex) s i pos) :=
+  stepAt_frame T c hO leaf annex st s op i idx pos hop hdata hR H
+
+/-- `evalScript` ≡ `EvalScript` on every script that consists of proved opcodes (any length, any push forms,
+    truncated tail included): both return false / an error, or both return true with the SAME final stack.
+    Holds for every flag set, signature version, initial stack and total crypto instance; the model never panics. -/
+theorem evalScript_equiv_partial (T : TotalOracles) (tx : TxCtx) (flags : Nat) (p : Bytes) (stack : Stack)
+    (sv : SigVersion) (ed : ExecData) (hall : ∀ i ∈ (ScriptSpec.parse p).1, provedOp i.op = true) :
+    match evalScript T.toOracles tx flags p stack sv ed,
+          ScriptSpec.evalScript (envOf T ⟨T.toOracles, tx, flags, sv, p⟩ ed.tapleafHash ed.annexHash) p stack ed.weightLeft with
+    | .ok s1, .ok s2 => s1 = s2
+    | .fail, .error _ => True
+    | _, _ => False :=
+  evalScript_agree T tx flags p stack sv ed hall
+
+/-- non-vacuity: `OP_1 OP_DUP OP_EQUAL`, a 2-byte push, `OP_HASH160 <20 bytes> OP_EQUAL` (the P2SH template)
+    and a script with a truncated push all satisfy the hypothesis of `evalScript_equiv_partial` -/
+example : ∀ i ∈ (ScriptSpec.parse [0x51, 0x76, 0x87]).1, provedOp i.op = true := by decide
+example : ∀ i ∈ (ScriptSpec.parse ([0xa9, 0x14] ++ List.replicate 20 7 ++ [0x87])).1, provedOp i.op = true := by decide
+example : ∀ i ∈ (ScriptSpec.parse [0x02, 0xaa, 0xbb, 0x75, 0x51, 0x4c]).1, provedOp i.op = true := by decide
+
+-- OPEN: the central theorem at full strength (DESIGN.md §6 C01):
+--   theorem script_equiv (T : TotalOracles) (tx : TxCtx) (pk : Bytes) (flags : Nat)
+--       (hf : ScriptSpec.FlagsOk (ScriptSpec.Flags.ofMask flags)) :
+--       verifyTxScript T.toOracles tx pk flags =
+--         (match ScriptSpec.verifyScript T.toOracles tx pk (ScriptSpec.Flags.ofMask flags) with
+--          | .ok () => .ok () | .error _ => .fail)
+-- What is missing: (a) the `execOp`/`execOpcode` cases of the opcodes outside `provedOp` — IF/NOTIF/ELSE/ENDIF
+-- (needs the list ↔ counter condition-stack relation in `Rel`), DEPTH/SIZE/PICK/ROLL and the arithmetic group
+-- (popInt ↔ CScriptNum: `bts2int_eq_scriptnum`, `isMinimal_eq_core`, `pushInt_eq_serialize` are the lemmas they
+-- need), CLTV/CSV (`bts2intExt_eq_scriptnum`), CODESEPARATOR, CHECKSIG(VERIFY/ADD) and CHECKMULTISIG(VERIFY)
+-- (delSig vs FindAndDelete, cursor arithmetic vs list form) — each plugs into `step_frame_equiv`;
+-- (b) the wrappers VerifyTxScript / VerifyWitnessProgram / ExecuteWitnessScript / VerifyTaprootCommitment
+-- (straight-line code; `isPushOnly_eq_spec`, `opSuccessScan_eq_spec` are their decode parts).
+-- Until then every opcode and the wrappers are covered by the differential run (implementation vs model vs spec).
 
 end GocoinV.Props.C01
